@@ -57,6 +57,8 @@ def seq_key(f):
     # neither the reader mode nor the break position identify the defect
     d = re.sub(r"^k=\d+: ", "", f["detail"])
     d = re.sub(r'>"[^"]*" became ".*$', "", d, flags=re.S)     # where it differs, not the differing text
+    if "Redirect.Hdoc" in d:
+        d = "Redirect.Hdoc"      # a here-document body, wherever the statement that carries it sits in the tree
     return "%s|%s" % (f["kind"], d[:200])
 
 
@@ -353,7 +355,7 @@ def gen_probes(ck, vecs, layouts, n, obj):
 def part_reuse(ck, h, t, vecs, layouts):
     st = t.vecs["STAT"][0]
     obj = st["obj"]
-    probes = [k for k in st["lib"] if k["e"] != "opt"] + gen_probes(ck, vecs, layouts, 30 if ck.tier == "quick" else 60, obj)
+    probes = [k for k in st["lib"] if k["e"] != "opt"] + gen_probes(ck, vecs, layouts, 30, obj)
     hists = t.vecs["VEC"]
     work = vlib.scratch("c08-")
     try:
@@ -407,7 +409,7 @@ def run(ck):
     layouts = syn.load_layouts()
     nder = len(vecs)
     vecs = with_compositions(vecs, ck.notes.get("derivations_bfs", len(vecs)))
-    ck.notes["programs"] = {"derivations": nder, "with_compositions": len(vecs)}
+    ck.notes["program_counts"] = {"derivations": nder, "with_compositions": len(vecs)}
     nseq = part_seq(ck, h, vecs, layouts); lap("seq")
     recs, members = part_inter(ck, h, vecs, layouts); lap("interactive_record")
     with ThreadPoolExecutor(max_workers=1) as ex:     # TLC validates the traces while the reuse histories are replayed
